@@ -15,6 +15,18 @@ while i < len(lines):
             out.append('ABSENT ' + ' '.join(ab))
         out.append(f'BLOCK {f[1]} 0 {f[3]}' + (f' {f[4]}' if len(f) > 4 else ''))
         i += 1 + nv
+        skipgov = int(f[5]) if len(f) > 5 else 0
+        continue
+    if f[0] == 'GOV':
+        # proposals executed by x/gov: recomputed by the script runner from the run itself
+        def skip_msg(j):
+            g = lines[j].split(); j += 1
+            if g[1] in ('EXEC', 'GROUPPROP', 'GOVPROP', 'GOVSUB'):
+                for _ in range(int(g[2])): j = skip_msg(j)
+            return j
+        j = i + 1
+        for _ in range(int(f[1])): j = skip_msg(j)
+        i = j
         continue
     out.append(lines[i]); i += 1
 if out[-1] != 'END':
